@@ -151,9 +151,17 @@ Inductive status_resp :=
 (* where the key lies in a malformed key body relative to the two message cuts *)
 Inductive layout := Early | Mid | Far.
 
+(* What hex::decode (crate hex 0.4, used by helpers::compute_signature AND by the key keeper's gate of
+   commit 5de21e5) accepts: Err(OddLength) when the number of characters is odd, Err(InvalidHexCharacter)
+   at the first character outside [0-9a-fA-F], Ok otherwise -- so the empty string, upper, lower and mixed
+   case all decode; an odd number of hex digits, a 0x prefix, surrounding white space do not.  The [hex]
+   flag of [KOk] is this function of the delivered value's shape (the check renders it that way and
+   computes the two arguments from the actual canary value). *)
+Definition hex_decode_accepts (even_length all_hex_digits : bool) : bool := even_length && all_hex_digits.
+
 (* answer to POST /secure-channel/key *)
 Inductive key_resp :=
-| KOk (k : keyid) (hex : bool)      (* a Key document for key k (guid = k); hex: its value is valid hex *)
+| KOk (k : keyid) (hex : bool)      (* a Key document for key k (guid = k); hex: hex::decode accepts its value *)
 | KErr                              (* error status code *)
 | KMalformed (k : keyid) (l : layout). (* a body carrying key k's value that does not deserialize into Key *)
 
